@@ -703,6 +703,7 @@ func (la *LockAnalysis) Order() {
 			}
 		}
 	}
+	var reacq [][2]string
 	edges := map[string]map[string]string{}
 	add := func(a, b, site string) {
 		if a == b {
@@ -744,6 +745,11 @@ func (la *LockAnalysis) Order() {
 				}
 				for _, nf := range news {
 					for h := range held {
+						if h == nf {
+							// acquired again while held: a sync.Mutex / write lock blocks for ever; two read locks
+							// deadlock as soon as a writer queues between them (RWMutex prefers writers)
+							reacq = append(reacq, [2]string{nf, c.At(ins) + " in " + load.QualName(fn)})
+						}
 						add(h, nf, c.At(ins))
 					}
 				}
@@ -798,6 +804,12 @@ func (la *LockAnalysis) Order() {
 		}
 	}
 	c.Sites += ne
+	if len(reacq) == 0 {
+		c.OK("K8c", "lock-order", "no lock is acquired again while it is held", "-", "neither directly nor through a callee (a second read lock deadlocks behind a queued writer)")
+	}
+	for _, r := range reacq {
+		c.Fail("K8c", "lock-order", "no lock is acquired again while it is held", r[1], r[0]+" is acquired while already held: a write lock blocks for ever, a second read lock deadlocks as soon as a writer queues between the two")
+	}
 	if found {
 		c.Fail("K8c", "lock-order", "the acquired-while-holding graph is acyclic", "-", "cycle: "+strings.Join(cyc, " ; "))
 	} else {
